@@ -80,10 +80,15 @@ def alternative_or_next(type_: Union[RDREdge.Alternative, RDREdge.Next],
     """
     new_branch = chained_logic(AND, *conditions)
     current_node = SymbolicExpression._current_parent_()
-    if isinstance(current_node._parent_, (Alternative, Next)):
-        current_node = current_node._parent_
-    elif isinstance(current_node._parent_, ExceptIf) and current_node is current_node._parent_.left:
-        current_node = current_node._parent_
+    # climb to the top of the chain of alternatives (and refinements of it) that the current node starts, so that the new
+    # branch is tried after all of them and none of them is replaced.
+    while True:
+        if isinstance(current_node._parent_, (Alternative, Next)):
+            current_node = current_node._parent_
+        elif isinstance(current_node._parent_, ExceptIf) and current_node is current_node._parent_.left:
+            current_node = current_node._parent_
+        else:
+            break
     prev_parent = current_node._parent_
     current_node._parent_ = None
     if type_ == RDREdge.Alternative:
